@@ -4,16 +4,18 @@ quick checks named in CHECKS env (space separated) against it, recording which c
 import sys, os, json, shutil, subprocess, re
 pid = sys.argv[1]; needs = " ".join(sys.argv[2:])
 rnd = os.environ.get("ROUND", "")
-wt = f"/tmp/wt{rnd}-{pid}"; dst = f"/verif/seeded/{pid}" + (f"-{rnd}" if rnd else "")
+# WT / NAME / PROP / CONFIRM override the defaults (round 5 was organised by source file, not by property)
+wt = os.environ.get("WT", f"/tmp/wt{rnd}-{pid}"); dst = "/verif/seeded/" + os.environ.get("NAME", f"{pid}" + (f"-{rnd}" if rnd else ""))
+prop = os.environ.get("PROP", pid)
 os.makedirs(dst, exist_ok=True)
 shutil.copy(f"{wt}/patch.diff", f"{dst}/patch.diff")
-demo = f"{wt}/chitchat/src/demo_{pid.lower()}.rs"
-if os.path.exists(demo): shutil.copy(demo, f"{dst}/demo_{pid.lower()}.rs")
+import glob
+for demo in glob.glob(f"{wt}/chitchat/src/demo_*.rs"): shutil.copy(demo, f"{dst}/{os.path.basename(demo)}")
 if os.path.exists(f"{wt}/NOTES.md"): shutil.copy(f"{wt}/NOTES.md", f"{dst}/NOTES.md")
-cl = f"/tmp/confirm{rnd}-{pid}.log"
+cl = os.environ.get("CONFIRM", f"/tmp/confirm{rnd}-{pid}.log")
 confirm = open(cl).read() if os.path.exists(cl) else ""
 open(f"{dst}/confirm.log", "w").write(confirm)
-checks = os.environ.get("CHECKS", pid).split()
+checks = os.environ.get("CHECKS", prop).split()
 assert subprocess.run("git -C /repo status --porcelain", shell=True, capture_output=True, text=True).stdout.strip() == ""
 subprocess.run(f"git -C /repo apply {dst}/patch.diff", shell=True, check=True)
 res = {}
@@ -25,7 +27,7 @@ try:
         print(pid, c, "CAUGHT" if res[c]["caught"] else "missed", (lines[-2][:160] if len(lines) > 1 else ""))
 finally:
     subprocess.run("git -C /repo checkout -- .", shell=True)
-meta = {"property": pid, "breaks": pid, "source": "sub-agent given only the property text and a scratch worktree",
+meta = {"property": prop, "breaks": prop, "source": "sub-agent given only the property text and a scratch worktree",
         "needs_to_manifest": needs,
         "confirmed": {"how": "tools/seed_confirm.sh in the agent's scratch worktree: full `cargo test -p chitchat` with the change, demo without the change, demo with the change", "log": "confirm.log"},
         "ran": [f"git -C /repo apply {dst}/patch.diff; ./check {c} quick; git -C /repo checkout -- ." for c in checks],
